@@ -71,7 +71,7 @@ func gen4(rng *rand.Rand, xid uint32, wellFormed bool) []byte {
 		p.Flags = 0x8000
 	}
 	pick := func() [4]byte {
-		switch rng.Intn(6) {
+		switch rng.Intn(7) {
 		case 0:
 			return [4]byte{10, byte(rng.Intn(256)), byte(rng.Intn(256)), byte(1 + rng.Intn(254))}
 		case 1:
@@ -80,6 +80,8 @@ func gen4(rng *rand.Rand, xid uint32, wellFormed bool) []byte {
 			return [4]byte{255, 255, 255, 255}
 		case 3:
 			return [4]byte{10, 77, 0, 1}
+		case 4:
+			return [4]byte{10, 77, 2, byte(1 + rng.Intn(8))}
 		}
 		return [4]byte{}
 	}
